@@ -184,7 +184,11 @@ func solveAll(items []*solveItem, timeoutS int, needTwo bool, workers int) {
 					continue
 				}
 				script := it.w.script(o, false)
-				r := solve(script, it.file, timeoutS, needTwo && !o.Vacuity)
+				to := timeoutS
+				if o.Vacuity && to > 4 {
+					to = 4 // a contradictory precondition is refuted quickly; "unknown" is the expected answer
+				}
+				r := solve(script, it.file, to, needTwo && !o.Vacuity)
 				o.Solver, o.TimeS, o.Output, o.SMTFile = r.solver, r.timeS, r.output, it.file
 				if r.confirmedBy != "" {
 					o.Solver += "+" + r.confirmedBy
@@ -205,6 +209,32 @@ func solveAll(items []*solveItem, timeoutS int, needTwo bool, workers int) {
 					o.Status = "failed"
 				default:
 					o.Status = "unknown"
+					// retry: split the goal into its conjuncts and prove each on its own
+					if parts := splitGoal(o.Goal); len(parts) > 1 {
+						all := true
+						tot := r.timeS
+						var used []string
+						for pi, part := range parts {
+							po := *o
+							po.Goal = part
+							pr := solve(it.w.script(&po, false), fmt.Sprintf("%s.part%d.smt2", strings.TrimSuffix(it.file, ".smt2"), pi), to, false)
+							tot += pr.timeS
+							if pr.status != "unsat" {
+								all = false
+								o.Output += fmt.Sprintf("\n[split %d/%d] %s: %s", pi+1, len(parts), pr.status, truncate(part, 200))
+								if pr.status == "sat" {
+									o.Status = "failed"
+								}
+								break
+							}
+							used = append(used, pr.solver)
+						}
+						o.TimeS = tot
+						if all {
+							o.Status = "proved"
+							o.Solver = "split(" + fmt.Sprint(len(parts)) + "):" + used[0]
+						}
+					}
 				}
 			}
 		}()
@@ -220,4 +250,89 @@ type solveItem struct {
 	o    *Obligation
 	w    *World
 	file string
+}
+
+// splitGoal splits `(and a b ...)` and `(=> h (and a b ...))` into separate goals.
+func splitGoal(g string) []string {
+	g = strings.TrimSpace(g)
+	args := sexprArgs(g)
+	if len(args) == 0 {
+		return nil
+	}
+	switch args[0] {
+	case "and":
+		var out []string
+		for _, a := range args[1:] {
+			if sub := splitGoal(a); len(sub) > 1 {
+				out = append(out, sub...)
+			} else {
+				out = append(out, a)
+			}
+		}
+		return out
+	case "=>":
+		if len(args) == 3 {
+			sub := splitGoal(args[2])
+			if len(sub) > 1 {
+				var out []string
+				for _, s := range sub {
+					out = append(out, "(=> "+args[1]+" "+s+")")
+				}
+				return out
+			}
+		}
+	}
+	return nil
+}
+
+// sexprArgs returns the head and arguments of a parenthesised s-expression.
+func sexprArgs(s string) []string {
+	if len(s) < 2 || s[0] != '(' || s[len(s)-1] != ')' {
+		return nil
+	}
+	s = s[1 : len(s)-1]
+	var out []string
+	depth := 0
+	start := -1
+	inBar := false
+	for i := 0; i < len(s); i++ {
+		c := s[i]
+		if inBar {
+			if c == '|' {
+				inBar = false
+			}
+			continue
+		}
+		switch {
+		case c == '|':
+			inBar = true
+			if start < 0 {
+				start = i
+			}
+		case c == '(':
+			if depth == 0 && start < 0 {
+				start = i
+			}
+			depth++
+		case c == ')':
+			depth--
+			if depth == 0 {
+				out = append(out, s[start:i+1])
+				start = -1
+			}
+		case c == ' ' || c == '\n' || c == '\t':
+			if depth == 0 && start >= 0 {
+				out = append(out, s[start:i])
+				start = -1
+			}
+		default:
+			if start < 0 {
+				start = i
+			}
+		}
+	}
+	if start >= 0 {
+		out = append(out, s[start:])
+	}
+	return out
 }
